@@ -892,6 +892,8 @@ class TermCanvas(Canvas):
             return
 
         x, y = self.saved_cursor
+        # an explicit cursor movement cancels a pending wrap
+        self.is_rotten_cursor = False
         self.set_term_cursor(x, y)
 
         if with_attrs and self.saved_attrs is not None:
@@ -1294,6 +1296,7 @@ class TermCanvas(Canvas):
                 self.modes.reverse_video = flag
             elif mode == 6:
                 self.modes.constrain_scrolling = flag
+                self.is_rotten_cursor = False  # homing the cursor cancels a pending wrap
                 self.set_term_cursor(0, 0)
             elif mode == 7:
                 self.modes.autowrap = flag
@@ -1335,6 +1338,7 @@ class TermCanvas(Canvas):
             self.scrollregion_start = self.constrain_coords(0, top - 1, ignore_scrolling=True)[1]
             self.scrollregion_end = self.constrain_coords(0, bottom - 1, ignore_scrolling=True)[1]
 
+            self.is_rotten_cursor = False  # homing the cursor cancels a pending wrap
             self.set_term_cursor(0, 0)
 
     def csi_clear_tabstop(self, mode: Literal[0, 3] = 0):
@@ -1429,6 +1433,7 @@ class TermCanvas(Canvas):
         self.term = [self.empty_line() for _ in range(self.height)]
 
         if cursor is None:
+            self.is_rotten_cursor = False  # homing the cursor cancels a pending wrap
             self.set_term_cursor(0, 0)
         else:
             self.set_term_cursor(*cursor)
